@@ -93,4 +93,74 @@ theorem storageUpdate_sinv {old new added : List Change} (hu : StorageUpdate old
       exact ⟨fun p hp => hsub p (h1 p hp), hsub _ h2⟩
   · exact hadd l1 c l2 hdec hca
 
+/-- the tree holding only the common snapshot: where the rebuild starts -/
+def baseTree (cs : Nat) (csC : Change) : T := { root := some cs, att := [csC], added := [cs], lastIter := cs }
+
+theorem addAll_from_empty (cs : Nat) (csC : Change) (rest : List Change) (hid : csC.id = cs) :
+    addAll {} (csC :: rest) = addAll (baseTree cs csC) rest := by
+  unfold addAll
+  simp only [List.foldl_cons]
+  have : (({} : T).has csC.id || ({} : T).hasUn csC.id) = false := by simp [T.has, T.hasUn]
+  rw [this]
+  simp only [Bool.false_eq_true, if_false]
+  have : addOne {} csC = baseTree cs csC := by
+    unfold addOne baseTree; simp [hid]
+  rw [this]
+
+/-- **the rebuild branch, from a causal enumeration.**  `U` = what is loaded after the common snapshot plus the not yet
+stored changes of the batch.  If some sub-list `l0` of `U` that contains all those new changes can be enumerated
+causally from the common snapshot (every previous id / snapshot base is the common snapshot or earlier in `l0`), the
+snapshot of a change is attached whenever its previous ids are (`SnapOK`), and ids are unique, then the rebuilt tree is
+rooted at the common snapshot, holds every new change, and reports each of them as added. -/
+theorem addRaw_rebuilt_causal (stored : List Change) (ourPath theirPath : List Nat) (t : T) (batch : List Change)
+    (cs : Nat) (csC : Change) (rest : List Change) (t' : T) (added : List Nat)
+    (hcs : commonSnapshot ourPath theirPath = some cs)
+    (hload : stored.dropWhile (·.id != cs) = csC :: rest)
+    (hid : csC.id = cs) (hself : cs ∉ csC.prevs)
+    (huniq : ∀ a ∈ rest ++ extraOf stored t batch, ∀ b ∈ rest ++ extraOf stored t batch, a.id = b.id → a = b)
+    (hrootprev : ∀ p ∈ csC.prevs, ∀ c ∈ rest ++ extraOf stored t batch, c.id ≠ p)
+    (hs : SnapOK (rest ++ extraOf stored t batch) (baseTree cs csC))
+    (l0 : List Change) (hl0 : ∀ c ∈ l0, c ∈ rest ++ extraOf stored t batch)
+    (hcaus : CausalFor (baseTree cs csC) l0) (hext : ∀ c ∈ extraOf stored t batch, c ∈ l0)
+    (hres : addRaw stored ourPath theirPath t batch = .rebuilt t' added) :
+    t'.root = some cs ∧ t'.unatt = [] ∧ ∀ c ∈ extraOf stored t batch, t'.has c.id = true ∧ c.id ∈ added := by
+  have hwf : WFAtt [csC] := by
+    have := @WFAtt.snoc [] csC WFAtt.nil (by simp) (by rw [hid]; exact hself) (by simp)
+    simpa using this
+  have hst : St (rest ++ extraOf stored t batch) (baseTree cs csC) (baseTree cs csC) [] := by
+    refine ⟨⟨hwf, ?_, by intro u hu; simp [baseTree] at hu⟩,
+      ⟨by intro u hu; simp [baseTree] at hu, by intro u hu; simp [baseTree] at hu, by simp [baseTree]⟩, fun _ h => h⟩
+    intro d hd p hp
+    have : d = csC := by simpa [baseTree] using hd
+    subst this
+    exact Or.inr (fun c hc => hrootprev p hp c hc)
+  have hroot : (baseTree cs csC).root.isSome = true := by simp [baseTree]
+  have hall := addAll_complete _ (baseTree cs csC) hs (baseTree cs csC) (rest ++ extraOf stored t batch) l0
+    (fun c hc => hc) hst hroot huniq hl0 hcaus
+  obtain ⟨_, e1, _, _⟩ := addAll_w _ (baseTree cs csC) hs (rest ++ extraOf stored t batch) (baseTree cs csC)
+    (fun c hc => hc) hst hroot
+  have hlist : stored.dropWhile (·.id != cs) ++ extraOf stored t batch = csC :: (rest ++ extraOf stored t batch) := by
+    rw [hload]; rfl
+  unfold addRaw at hres
+  simp only at hres
+  split at hres
+  · simp at hres
+  · split at hres
+    · rw [hcs] at hres
+      simp only [RawOutcome.rebuilt.injEq] at hres
+      obtain ⟨ht', hadded⟩ := hres
+      have hE : dedupById ((batch.filter (fun c => !t.has c.id)).filter (fun c => !stored.any (·.id == c.id)))
+          = extraOf stored t batch := rfl
+      rw [hE, hlist, addAll_from_empty cs csC _ hid] at ht' hadded
+      have hhas : ∀ x, t'.has x = (addAll (baseTree cs csC) (rest ++ extraOf stored t batch)).has x := by
+        intro x; rw [← ht']; rfl
+      refine ⟨by rw [← ht']; exact e1.1, by rw [← ht'], ?_⟩
+      intro c hc
+      have h1 := hall c (hext c hc)
+      refine ⟨by rw [hhas]; exact h1, ?_⟩
+      rw [← hadded]
+      exact List.mem_map.mpr ⟨c, List.mem_filter.mpr ⟨hc, h1⟩, rfl⟩
+    · simp at hres
+
+
 end AnySync.Tree
